@@ -38,11 +38,15 @@ class C13Death(Prop):
     module = 'c13'
     title = 'A dying pilot fails its own tasks and only those'
     props_files = ['Props/C13.v']
-    extra_targets = ['PilotDeath/Oracle.vo']
-    model_targets = ['PilotDeath/Oracle.vo']
+    extra_targets = ['PilotDeath/Oracle.vo', 'States/DeathRace.vo']
+    model_targets = ['PilotDeath/Oracle.vo', 'States/DeathRace.vo']
     translators = ['states']
     header = 'From RP Require Import Gen.StatesTables PilotDeath.Model PilotDeath.Oracle.'
-    clauses = ['own_failed', 'others_untouched', 'reported']
+    clauses = ['own_failed', 'others_untouched', 'reported', 'one_final_state_under_concurrent_update']
+    race_header = 'From RP Require Import Gen.StatesTables States.Model States.Inst States.DeathRace.'
+
+    def header_for(self, case):
+        return self.race_header if 'race' in case else self.header
     corr_name = ('PilotDeath.Model(pilot_state_cb/update_failed) vs TaskManager._pilot_state_cb + Task._update '
                  '(+ Pilot._update callback delivery)')
     rule = ('corpus; exhaustive (thorough: 3 pilots x 4 tasks over 5 representative task states and bindings, '
@@ -112,6 +116,15 @@ class C13Death(Prop):
                 if o[0] == 'cb' and o[2] == 'single' and dead:
                     o[2] = 'list'
             yield {'tasks': tasks, 'ops': ops}
+        # a state notification for a task and the death of its pilot handled by two threads at once
+        # (tmgr state subscriber vs. the pilot manager's callback thread): one is held after its k-th line
+        curs = ['TMGR_SCHEDULING', 'AGENT_EXECUTING_PENDING', 'AGENT_EXECUTING', 'AGENT_STAGING_OUTPUT', 'CANCELED']
+        tgts = ['AGENT_EXECUTING', 'AGENT_STAGING_OUTPUT_PENDING', 'DONE', 'FAILED', 'CANCELED']
+        races = [(c, t, f, k) for c in curs for t in tgts for f in ('update', 'death') for k in range(1, 81)]
+        if tier == 'quick':
+            races = rng.sample(races, 220)
+        for c, t, f, k in races:
+            yield {'tasks': [[1, c, 1]], 'ops': [], 'race': {'tgt': t, 'first': f, 'k': k}}
         if tier == 'thorough':
             R = ['NEW', 'AGENT_EXECUTING', 'DONE', 'FAILED', 'CANCELED']
             for sts in itertools.product(R, repeat=4):
@@ -176,6 +189,30 @@ class C13Death(Prop):
                 out.append([int(t.uid.split('.')[1]), t.state, pl, blame])
             return out
 
+        if 'race' in case:
+            from . import interleave as IL
+            import radical.pilot.states as rps
+            rc = case['race']
+            ann = []
+            tm._tcb_lock, tm._task_info = threading.RLock(), {t: {} for t in tm._tasks}
+            tm._callbacks = {rpc.TASK_STATE: {'*': {'rec': {
+                'cb': lambda t, s: ann.append(s) if s in FINAL else None, 'cb_data': None}}}}
+            real_adv = tm.advance
+
+            def adv2(things, state=None, publish=True, push=False, **kw):
+                real_adv(things, state=state, publish=publish, push=push, **kw)
+                for t in (things if isinstance(things, list) else [things]):
+                    if (state or t['state']) in FINAL:
+                        ann.append(state or t['state'])
+            tm.advance = adv2
+            upd = lambda: tm._update_tasks([{'uid': tuid(1), 'state': rc['tgt'], 'type': 'task'}])
+            die = lambda: tm._pilot_state_cb([pilot(1, 'FAILED')])
+            codes = IL.code_of(TaskManager._update_tasks, Task._update, rps._task_state_progress,
+                               TaskManager._task_cb, TaskManager._pilot_state_cb)
+            fa, fb = (upd, die) if rc['first'] == 'update' else (die, upd)
+            r = IL.run_pair(fa, fb, codes, rc['k'], block_s=0.05)
+            return {'held': r['held'], 'a_exc': r['a_exc'], 'b_exc': r['b_exc'], 'ann': ann,
+                    'fin': tm._tasks[tuid(1)].state}
         obs = []
         for o in case['ops']:
             if o[0] == 'set':
@@ -234,6 +271,17 @@ class C13Death(Prop):
         return '(mkM false false %s)' % L.lst([self._task(t) for t in case['tasks']])
 
     def coq_row(self, case, obs):
+        if 'race' in case:
+            if not obs['held']:
+                return '[true; true; true; true; true]'
+            row = '(c13_race_row T_%s T_%s %s T_%s)' % (case['tasks'][0][1], case['race']['tgt'],
+                                                      L.lst(['T_' + s for s in obs['ann']]), obs['fin'])
+            if obs['a_exc'] or obs['b_exc']:
+                row = '(false :: tl %s)' % row
+            return row
+        return '(%s ++ [true])' % self._coq_row_cb(case, obs)
+
+    def _coq_row_cb(self, case, obs):
         items = []
         bad = False
         for o in obs['cbs']:
@@ -249,9 +297,13 @@ class C13Death(Prop):
         return row
 
     def model_show(self, case):
+        if 'race' in case:
+            return '(order_ud T_%s T_%s, order_du T_%s T_%s)' % ((case['tasks'][0][1], case['race']['tgt']) * 2)
         return 'run %s %s' % (self._m(case), self._ops(case['ops']))
 
     def nontrivial(self, case, obs):
+        if 'race' in case:
+            return bool(obs['held'])
         binds = set(t[2] for t in case['tasks'])
         for o in case['ops']:
             if o[0] == 'cb':
@@ -261,9 +313,13 @@ class C13Death(Prop):
         return False
 
     def signature(self, case, obs, clause):
+        if 'race' in case:
+            return '%s:TaskManager._pilot_state_cb:two-threads' % clause
         return '%s:TaskManager._pilot_state_cb' % clause
 
     def shrink(self, case):
+        if 'race' in case:
+            return
         ops = case['ops']
         for i in range(len(ops)):
             yield dict(case, ops=ops[:i] + ops[i + 1:])
@@ -280,9 +336,12 @@ class C13Death(Prop):
                 yield dict(case, tasks=ts[:i] + ts[i + 1:])
 
     def distribution(self, results):
-        d = {'ops': {}, 'tasks': {}, 'callbacks_with_final_pilot': 0, 'how': {}}
+        d = {'ops': {}, 'tasks': {}, 'callbacks_with_final_pilot': 0, 'how': {}, 'two_thread_cases': 0}
         for r in results:
             c = r['case']
+            if 'race' in c:
+                d['two_thread_cases'] += 1
+                continue
             d['tasks'][str(len(c['tasks']))] = d['tasks'].get(str(len(c['tasks'])), 0) + 1
             for o in c['ops']:
                 d['ops'][o[0]] = d['ops'].get(o[0], 0) + 1
